@@ -493,3 +493,14 @@ def _register_shared_nz():
 
 
 # _register_shared_nz() is called by the driver after this module is fully imported (no import cycles)
+
+
+# "in patch-index order": the histogram samples are numbered by the position of a patch in the iteration over the catalog, which
+# must be ascending patch id whatever order the patches were loaded in (C12 unit on the catalog accessors)
+def _register_shared_round9():
+    from . import C12 as _C12
+    unit(P, "Catalog.accessors", fuc=["yaw.catalog.catalog:Catalog.__iter__", "yaw.catalog.catalog:Catalog.get_centers", "yaw.catalog.catalog:Catalog.get_num_records"],
+         kind="bounded")(_C12.u_accessors)
+
+
+# _register_shared_round9() is called by the driver after this module is fully imported (no import cycles)
